@@ -36,8 +36,10 @@ LEVEL = {
     "decided": "C03: (R03.1) every call of a user callable goes through awaitify and is awaited (by-contract table for "
                "the documented async-only / sync-only parameters; internal helpers checked through their call sites); "
                "(R03.2) iterable parameters are never iterated directly, only through aiter/ScopedIter/another tool; "
-               "(R03.3) aiter / awaitify / Awaitify.__call__ dispatch shape; (R03.4) every public name has an "
-               "awaitable / async-iterator / async-context-manager return kind.",
+               "(R03.3) aiter / awaitify / Awaitify.__call__ as decision tables over an object model (async or not, "
+               "coroutine function or not, kind known / first call with awaitable or plain result); (R03.4) every public "
+               "name has an awaitable / async-iterator / async-context-manager return kind; (R03.5) `.aclose` is looked up "
+               "on a user's iterator only where it is known to exist (class-based iterators without aclose stay usable).",
     "not_decided": "that results are equal across argument flavours for each input (follows from the routing rules "
                    "plus the value-level behaviour of C01/C02, which is not decided statically).",
     "technique": "static analysis: origin dataflow (callable -> awaitify -> await; iterable -> aiter) and return-kind lattice",
